@@ -1019,7 +1019,9 @@ fn expired_readers_concurrent(ctx: &Ctx, acc: &Accum, rounds: u64) -> Option<i32
 fn rmw_over_tcp(ctx: &Ctx, acc: &Accum, per_client: usize) -> Option<i32> {
     use crate::l3::{Client, ServerOpts};
     use std::io::Write;
-    for (listeners, workers) in [(3usize, 0usize), (1, 2)] {
+    // the multi-listener configuration several times over (fresh server, fresh connections: how the kernel
+    // spreads the connections over the listeners and how their work overlaps differs from run to run)
+    for (listeners, workers) in [(3usize, 0usize), (3, 0), (2, 0), (3, 0), (1, 2)] {
         let server = match crate::netpipe::start_server(ServerOpts { listeners, workers, ..ServerOpts::default() }) {
             Ok(s) => s,
             Err(e) => {
@@ -1030,11 +1032,16 @@ fn rmw_over_tcp(ctx: &Ctx, acc: &Accum, per_client: usize) -> Option<i32> {
         let clients = 6usize;
         let port = server.port;
         let _ = server.side_exec(&Cmd::set(b"tl", b"", 0, 0).frame());
+        // all connections are open before the first byte is written, and all pipelines are written at once
+        let start = Arc::new(Barrier::new(clients));
         let results: Vec<Option<Vec<u64>>> = std::thread::scope(|s| {
             let hs: Vec<_> = (0..clients)
                 .map(|ci| {
+                    let start = start.clone();
                     s.spawn(move || -> Option<Vec<u64>> {
-                        let mut c = Client::connect(port).ok()?;
+                        let c = Client::connect(port);
+                        start.wait();
+                        let mut c = c.ok()?;
                         let _ = c.sock.set_nonblocking(false);
                         let mut stream = vec![];
                         for i in 0..per_client {
@@ -1115,7 +1122,7 @@ pub fn phase(ctx: &Ctx, acc: &Accum, prop: &str) -> Option<i32> {
             .or_else(|| same_token_rounds(ctx, acc, if q { 300 } else { 5000 }))
             .or_else(|| expired_restore(ctx, acc, if q { 300 } else { 5000 }))
             .or_else(|| absent_cas_vs_plain(ctx, acc, if q { 60_000 } else { 1_500_000 })),
-        "C04" => rmw(ctx, acc, if q { 6_000 } else { 40_000 }, if q { 200 } else { 3000 }).or_else(|| rmw_private(ctx, acc, if q { 40_000 } else { 400_000 }, if q { 100_000 } else { 300_000 })).or_else(|| rmw_over_tcp(ctx, acc, if q { 400 } else { 4000 })),
+        "C04" => rmw(ctx, acc, if q { 6_000 } else { 40_000 }, if q { 200 } else { 3000 }).or_else(|| rmw_private(ctx, acc, if q { 40_000 } else { 400_000 }, if q { 100_000 } else { 300_000 })).or_else(|| rmw_over_tcp(ctx, acc, if q { 1500 } else { 8000 })),
         "C16" => progress(ctx, acc, if q { 4 } else { 30 }),
         "C15" => accounting_concurrent(ctx, acc, if q { 3000 } else { 60_000 }).or_else(|| expired_readers_concurrent(ctx, acc, if q { 1500 } else { 30_000 })),
         "C14" => eviction_bound(ctx, acc, if q { 3 } else { 60 }).or_else(|| expiry_concurrent(ctx, acc, if q { 40 } else { 800 })).or_else(|| eviction_vs_delete(ctx, acc, if q { 1500 } else { 60_000 })),
